@@ -264,7 +264,19 @@ X2 == [method |-> <<71, 69, 84>>,                                               
        path |-> <<P(nId, Str(<<57>>))>>, query |-> <<>>, headers |-> <<>>, body |-> NoBody,
        rheaders |-> <<>>,
        rbody |-> Arr(<<Str(<<112>>), Arr(<<Str(<<113, 113>>), Obj(<<nId>>, <<IntV(9)>>)>>)>>)]           \* ["p", ["qq", {"id": 9}]]
-X(id) == IF id = "X1" THEN X1 ELSE X2
+(* X3: every source is PRESENT with a falsy value - 0, false, "", [] and {} are values, not absences *)
+Falsy == Obj(<<nId, <<97>>, <<98>>, <<110>>, <<48>>>>, <<IntV(0), Bool(FALSE), Str(<<>>), Arr(<<>>), Obj(<<>>, <<>>)>>)
+         \* {"id": 0, "a": false, "b": "", "n": [], "0": {}}
+X3 == [method |-> <<80, 79, 83, 84>>,                                                                   \* POST
+       url |-> <<104, 116, 116, 112, 58, 47, 47, 49, 50, 55, 46, 48, 46, 48, 46, 49, 47, 97, 112, 105, 47, 117, 115, 101, 114, 115, 47, 48, 63, 113, 61, 38, 97, 46, 98, 61, 48>>,
+            \* http://127.0.0.1/api/users/0?q=&a.b=0
+       status |-> 200,
+       path |-> <<P(nId, IntV(0))>>, query |-> <<P(nQ, Str(<<>>)), P(nDotted, IntV(0))>>,                \* id=0 ; q="", a.b=0
+       headers |-> <<P(hXId, Str(<<>>))>>,                                                               \* X-Id: (empty)
+       body |-> Falsy,
+       rheaders |-> <<P(LowerSeq(hLocation), Str(<<>>)), P(hxid, Str(<<48>>))>>,                        \* location: (empty) ; x-id: 0
+       rbody |-> Falsy]
+X(id) == IF id = "X1" THEN X1 ELSE IF id = "X2" THEN X2 ELSE X3
 
 (* ------------------------- expression family ---------------------------- *)
 RT == {<<97>>, <<98>>, nId, <<98, 126, 49, 99>>, <<109, 126, 48, 110>>, <<126, 48, 49>>, <<>>, <<48>>, <<49>>, <<50>>, <<48, 49>>,
@@ -332,6 +344,8 @@ vars == <<fam, e, tree, lnk, xid, key, keys, out>>
 Pending == [k |-> "pending"]
 Init == /\ out = Pending
         /\ \/ fam = "expr" /\ e \in Family /\ tree = Null /\ lnk = NoLink /\ xid \in {"X1", "X2"} /\ key = "" /\ keys = {}
+           \/ fam = "expr" /\ e \in BareWF \cup Inner \cup PtrExprs \cup Templates /\ tree = Null /\ lnk = NoLink /\ xid = "X3"
+              /\ key = "" /\ keys = {}
            \/ fam = "tree" /\ e = <<>> /\ tree \in Trees /\ lnk = NoLink /\ xid \in {"X1", "X2"} /\ key = "" /\ keys = {}
            \/ fam = "link" /\ e = <<>> /\ tree = Null /\ lnk \in LinkShapes /\ xid = "" /\ key = "" /\ keys = {}
            \/ fam = "status" /\ e = <<>> /\ tree = Null /\ lnk = NoLink /\ xid = "" /\ keys \in KeySets /\ key \in keys
@@ -370,6 +384,12 @@ ConstantIsItself == (fam = "expr" /\ out.k # "pending" /\ ~Has(e, cDollar)) =>
                         out = IF Has(e, cLB) \/ Has(e, cRB) THEN LitOrRej(e) ELSE Val(Str(e))
 (* nothing that is sent can come from a malformed or unresolvable expression *)
 NeverSendsNothing == (fam = "expr" /\ out.k \in {"unres", "malformed", "badptr"}) => ~Derived(e, X(xid)).sent
+(* a source that is present denotes its value even when that value is 0, false, "" , [] or {} *)
+FalsyIsAValue == /\ Eval(sRequest \o sPath \o nId, X3) = Val(IntV(0)) /\ Eval(sRequest \o sQuery \o nQ, X3) = Val(Str(<<>>))
+                 /\ Eval(sRequest \o sHeader \o hXId, X3) = Val(Str(<<>>)) /\ Eval(sResponse \o sHeader \o hLocation, X3) = Val(Str(<<>>))
+                 /\ Eval(sResponse \o sBody \o <<cHash, cSlash, 97>>, X3) = Val(Bool(FALSE))
+                 /\ Eval(sRequest \o sBody \o <<cHash, cSlash, 110>>, X3) = Val(Arr(<<>>))
+                 /\ Eval(sRequest \o sQuery \o nMissing, X3) = RUnres
 (* RFC 6901: the empty pointer is the whole document; escapes decode as the RFC's examples *)
 PointerLaws == /\ Resolve(X1.rbody, <<>>) = X1.rbody
                /\ Unesc(<<126, 48, 49>>).s = <<126, 49>> /\ Unesc(<<98, 126, 49, 99>>).s = <<98, 47, 99>> /\ ~Unesc(<<126>>).ok
@@ -378,7 +398,7 @@ PointerLaws == /\ Resolve(X1.rbody, <<>>) = X1.rbody
                /\ Resolve(X1.rbody, <<47, 98, 47, 48, 49>>) = Str(<<107, 48, 49>>) /\ Resolve(X1.rbody, <<47, 97, 47, 45>>) = Unres
 
 (* ------------------------------- export --------------------------------- *)
-ASSUME PrintT(<<"EXCHANGE", ToJson([X1 |-> X1, X2 |-> X2])>>)
+ASSUME PrintT(<<"EXCHANGE", ToJson([X1 |-> X1, X2 |-> X2, X3 |-> X3])>>)
 Export == IF out = Pending THEN TRUE
           ELSE IF fam = "expr" THEN PrintT(<<"CASE", ToJson([e |-> e, x |-> xid, exp |-> out])>>)
           ELSE IF fam = "link" THEN PrintT(<<"LINK", ToJson([link |-> lnk, exp |-> out.v])>>)
